@@ -64,10 +64,8 @@ fn cover_body<const N: usize>() {
     kani::assume(a < out.len() && b < out.len() && a != b);
     assert!(spec_valid(out[a]));
     assert!(out[a] != out[b]);
-    if N >= 4 {
-        // a merge needs at least 4 siblings
-        kani::cover!(out.len() < N);
-    }
+    // a merge needs at least 4 siblings
+    kani::cover!(N < 4 || out.len() < N);
     kani::cover!(out.len() == N);
     kani::cover!(cin);
     kani::cover!(!cin);
